@@ -57,231 +57,448 @@ func (c *Ctx) LockerInternals(prop string) {
 			c.R.OK(rule, "gate", c.P.FuncPos(pre), "PreLock = Lock("+k1+"), PostLock = Unlock("+k1+"), nothing else")
 		}
 	}
+	// the unit analysed for Lock/Unlock: the method and the same-receiver helper methods it calls (statically)
+	unitOf := func(root *ssa.Function) map[*ssa.Function]bool {
+		unit := map[*ssa.Function]bool{root: true}
+		work := []*ssa.Function{root}
+		for len(work) > 0 && len(unit) < 12 {
+			f := work[len(work)-1]
+			work = work[:len(work)-1]
+			for _, ci := range Calls(f, func(ci ssa.CallInstruction) bool {
+				g := ci.Common().StaticCallee()
+				return g != nil && g.Blocks != nil && g.Signature.Recv() != nil && namedOf(g.Signature.Recv().Type()) == T && !ci.Common().IsInvoke()
+			}) {
+				g := ci.Common().StaticCallee()
+				if g == pre || g == post || unit[g] {
+					continue
+				}
+				unit[g] = true
+				work = append(work, g)
+			}
+		}
+		return unit
+	}
+	benign := func(ci ssa.CallInstruction) bool {
+		if _, ok := isSyncMapOp(ci); ok {
+			return true
+		}
+		if _, isB := ci.Common().Value.(*ssa.Builtin); isB {
+			return true
+		}
+		f := ci.Common().StaticCallee()
+		if f != nil && !prog.InModule(f) && (strings.Contains(f.String(), "zerolog") || strings.Contains(f.String(), "prometheus")) {
+			return true
+		}
+		if ci.Common().IsInvoke() && strings.Contains(an.TypeStr(ci.Common().Value.Type()), "metrics.") {
+			return true
+		}
+		return false
+	}
 	// Lock(key)
 	{
-		fn := lock
-		keyP := fn.Params[len(fn.Params)-1]
+		unit := unitOf(lock)
 		var fieldKeys = map[string]bool{}
-		var finalLocks []ssa.CallInstruction
-		nOther := 0
-		for _, ci := range Calls(fn, func(ssa.CallInstruction) bool { return true }) {
-			if op, ok := mutexOp(ci); ok {
-				fieldKeys[op.Key()] = true
-				if op.Key() == k1 {
-					c.R.Fail(rule, Fn(fn)+":gate", c.Pos(ci), "Lock(key) touches the gate mutex itself (the caller already holds it)", "the gate is only used by PreLock/PostLock", nil)
+		type flock struct {
+			ci ssa.CallInstruction
+			fn *ssa.Function
+		}
+		var finalLocks []flock
+		for fn := range unit {
+			for _, ci := range Calls(fn, func(ssa.CallInstruction) bool { return true }) {
+				if op, ok := mutexOp(ci); ok {
+					fieldKeys[op.Key()] = true
+					if op.Key() == k1 {
+						c.R.Fail(rule, Fn(fn)+":gate", c.Pos(ci), "Lock(key) touches the gate mutex itself (the caller already holds it)", "the gate is only used by PreLock/PostLock", nil)
+					}
+					continue
 				}
-				continue
+				f := ci.Common().StaticCallee()
+				if f != nil && (f.String() == "(*sync.Mutex).Lock") {
+					finalLocks = append(finalLocks, flock{ci, fn})
+					continue
+				}
+				if f != nil && f.String() == "(*sync.Mutex).Unlock" {
+					c.R.Fail(rule, Fn(fn)+":foreign-call", c.Pos(ci), "Lock(key) releases a key mutex", "only sync.Map operations, the creation mutex and the key mutex", nil)
+					continue
+				}
+				if benign(ci) || (f != nil && unit[f]) {
+					continue
+				}
+				c.R.Fail(rule, Fn(fn)+":foreign-call", c.Pos(ci), "Lock(key) calls "+CalleeName(ci)+" (unknown blocking behaviour inside the gate)", "only sync.Map operations, the creation mutex and the key mutex", nil)
 			}
-			f := ci.Common().StaticCallee()
-			if f != nil && (f.String() == "(*sync.Mutex).Lock") {
-				finalLocks = append(finalLocks, ci)
-				continue
+		}
+		// what a unit member (transitively) does: touches mutex field k / awaits a key mutex
+		var touches func(f *ssa.Function, k string, seen map[*ssa.Function]bool) bool
+		touches = func(f *ssa.Function, k string, seen map[*ssa.Function]bool) bool {
+			if seen[f] {
+				return false
 			}
-			if _, ok := isSyncMapOp(ci); ok {
-				continue
+			seen[f] = true
+			for _, ci := range Calls(f, func(ssa.CallInstruction) bool { return true }) {
+				if op, ok := mutexOp(ci); ok && op.Key() == k {
+					return true
+				}
+				g := ci.Common().StaticCallee()
+				if g != nil && g.String() == "(*sync.Mutex).Lock" {
+					return true
+				}
+				if g != nil && unit[g] && touches(g, k, seen) {
+					return true
+				}
 			}
-			if _, isB := ci.Common().Value.(*ssa.Builtin); isB {
-				continue
-			}
-			if f != nil && !prog.InModule(f) && (strings.Contains(f.String(), "zerolog") || strings.Contains(f.String(), "prometheus")) {
-				continue
-			}
-			if ci.Common().IsInvoke() && strings.Contains(an.TypeStr(ci.Common().Value.Type()), "metrics.") {
-				continue
-			}
-			nOther++
-			c.R.Fail(rule, Fn(fn)+":foreign-call", c.Pos(ci), "Lock(key) calls "+CalleeName(ci)+" (unknown blocking behaviour inside the gate)", "only sync.Map operations, the creation mutex and the key mutex", nil)
+			return false
 		}
 		for k := range fieldKeys {
-			h := Held(fn, k)
-			if len(h.ReturnsHeld) > 0 {
-				c.R.Fail(rule, Fn(fn)+":"+k, c.Pos(h.ReturnsHeld[0]), "Lock(key) can return with "+k+" still held: the next key creation blocks forever", "creation mutex released on every path", nil)
-			} else if len(h.DoubleLock) > 0 {
-				c.R.Fail(rule, Fn(fn)+":"+k, c.Pos(h.DoubleLock[0]), k+" can be locked twice on one path", "Lock/Unlock strictly paired", nil)
-			} else if len(h.UnlockUnheld) > 0 {
-				c.R.Fail(rule, Fn(fn)+":"+k, c.Pos(h.UnlockUnheld[0]), k+" can be unlocked while not held", "Lock/Unlock strictly paired", nil)
-			} else {
-				c.R.OK(rule, Fn(fn)+":"+k, c.P.FuncPos(fn), k+" is released on every path before Lock(key) returns")
-			}
-			// the blocking key-mutex acquisition happens with the creation mutex released
-			for _, fl := range finalLocks {
-				if h.Before[fl.(ssa.Instruction)]&2 != 0 {
-					c.R.Fail(rule, Fn(fn)+":"+k+":nested", c.Pos(fl), "the key mutex is awaited while "+k+" is held", "creation mutex released before waiting for the key mutex", nil)
+			for fn := range unit {
+				h := Held(fn, k)
+				if len(h.Ops) == 0 {
+					continue
+				}
+				if len(h.ReturnsHeld) > 0 {
+					c.R.Fail(rule, Fn(fn)+":"+k, c.Pos(h.ReturnsHeld[0]), "Lock(key) can return with "+k+" still held: the next key creation blocks forever", "creation mutex released on every path", nil)
+				} else if len(h.DoubleLock) > 0 {
+					c.R.Fail(rule, Fn(fn)+":"+k, c.Pos(h.DoubleLock[0]), k+" can be locked twice on one path", "Lock/Unlock strictly paired", nil)
+				} else if len(h.UnlockUnheld) > 0 {
+					c.R.Fail(rule, Fn(fn)+":"+k, c.Pos(h.UnlockUnheld[0]), k+" can be unlocked while not held", "Lock/Unlock strictly paired", nil)
+				} else {
+					c.R.OK(rule, Fn(fn)+":"+k, c.P.FuncPos(fn), k+" is released on every path before "+Fn(fn)+" returns")
+				}
+				// while the creation mutex is held: no wait for a key mutex and no helper that takes the creation mutex again or waits
+				for _, fl := range finalLocks {
+					if fl.fn == fn && h.Before[fl.ci.(ssa.Instruction)]&2 != 0 {
+						c.R.Fail(rule, Fn(fn)+":"+k+":nested", c.Pos(fl.ci), "the key mutex is awaited while "+k+" is held", "creation mutex released before waiting for the key mutex", nil)
+					}
+				}
+				for _, ci := range Calls(fn, func(ci ssa.CallInstruction) bool { g := ci.Common().StaticCallee(); return g != nil && unit[g] }) {
+					if h.Before[ci.(ssa.Instruction)]&2 != 0 && touches(ci.Common().StaticCallee(), k, map[*ssa.Function]bool{}) {
+						c.R.Fail(rule, Fn(fn)+":"+k+":nested", c.Pos(ci), "while "+k+" is held a helper is called that takes it again or waits for a key mutex", "helpers called under the creation mutex only read the map", nil)
+					}
 				}
 			}
 		}
 		// final acquisition: on every returning path the last blocking step is Lock on the mutex stored for this key
 		rule5 := "C04.O5 locker.same-mutex"
-		if len(finalLocks) != 1 {
-			c.R.Fail(rule5, Fn(fn), c.P.FuncPos(fn), fmt.Sprintf("expected exactly one key-mutex acquisition, found %d", len(finalLocks)), "one Lock() of the mutex stored for the key", nil)
+		fn := lock
+		keyP := fn.Params[len(fn.Params)-1]
+		if len(finalLocks) != 1 || finalLocks[0].fn != lock {
+			c.R.Fail(rule5, Fn(fn), c.P.FuncPos(fn), fmt.Sprintf("expected exactly one key-mutex acquisition in Lock(key) itself, found %d in its unit", len(finalLocks)), "one Lock() of the mutex stored for the key", nil)
 		} else {
-			fl := finalLocks[0]
+			fl := finalLocks[0].ci
 			// every return passes the acquisition
 			if x, path := an.Cut(an.CutQuery{From: an.Entry(fn), Target: func(i ssa.Instruction) bool { _, ok := i.(*ssa.Return); return ok },
 				AcceptInstr: func(i ssa.Instruction) bool { return i == fl.(ssa.Instruction) }}); x != nil {
 				c.R.Fail(rule5, Fn(fn), c.Pos(x), "Lock(key) can return without having acquired the key's mutex", "every path acquires the key mutex", an.PathString(c.Pos, path))
 			}
-			// the mutex value: typeassert of phi of {Load(key) value, freshly stored value}
-			okSrc, why := c.keyMutexSources(fn, fl.Common().Args[0], keyP)
-			if !okSrc {
-				c.R.Fail(rule5, Fn(fn), c.Pos(fl), "the mutex acquired is not the one stored in the map for this key: "+why, "mutex = map[key] (loaded, or created and stored only when absent)", nil)
+			ms := &mutexSrc{c: c, unit: unit, creation: fieldKeys}
+			if !ms.src(fn, fl.Common().Args[0], keyP, fl.(ssa.Instruction), 0) {
+				c.R.Fail(rule5, Fn(fn), c.Pos(fl), "the mutex acquired is not the one stored in the map for this key: "+ms.why, "mutex = map[key] (loaded, or created and stored only when a re-check under the creation mutex finds it absent)", nil)
+			} else if w := ms.mapWriters(lock); w != "" {
+				c.R.Fail(rule5, Fn(fn), c.Pos(fl), "the mutex acquired is not the one stored in the map for this key: "+w, "only Lock(key) creates map entries, never replaces or deletes them", nil)
 			} else {
-				c.R.OK(rule5, Fn(fn), c.Pos(fl), "the mutex acquired is map[key]; a new mutex is stored only below the not-present edge of a Load(key)")
+				c.R.OK(rule5, Fn(fn), c.Pos(fl), "the mutex acquired is map[key]; a new mutex is stored only below the not-present edge of a Load(key) made while the creation mutex is held")
 			}
 		}
 	}
 	// Unlock(key): no blocking operation
 	{
-		fn := unlock
+		unit := unitOf(unlock)
 		bad := false
-		for _, ci := range Calls(fn, func(ssa.CallInstruction) bool { return true }) {
-			f := ci.Common().StaticCallee()
-			if f != nil && (f.String() == "(*sync.Mutex).Unlock") {
-				continue
-			}
-			if _, ok := isSyncMapOp(ci); ok {
-				continue
-			}
-			if _, isB := ci.Common().Value.(*ssa.Builtin); isB {
-				continue
-			}
-			if op, ok := mutexOp(ci); ok {
+		for fn := range unit {
+			for _, ci := range Calls(fn, func(ssa.CallInstruction) bool { return true }) {
+				f := ci.Common().StaticCallee()
+				if f != nil && (f.String() == "(*sync.Mutex).Unlock") && fn == unlock {
+					continue
+				}
+				if op, ok := mutexOp(ci); ok {
+					bad = true
+					c.R.Fail(rule, Fn(fn)+":"+op.Key(), c.Pos(ci), "Unlock(key) takes "+op.Key()+": releasing a key can wait on another goroutine", "Unlock never blocks", nil)
+					continue
+				}
+				if op, ok := isSyncMapOp(ci); ok {
+					if op != "Load" {
+						bad = true
+						c.R.Fail(rule, Fn(fn)+":foreign-call", c.Pos(ci), "Unlock(key) modifies the key-mutex map ("+op+")", "only a map load and the mutex release", nil)
+					}
+					continue
+				}
+				if benign(ci) || (f != nil && unit[f]) {
+					continue
+				}
 				bad = true
-				c.R.Fail(rule, Fn(fn)+":"+op.Key(), c.Pos(ci), "Unlock(key) takes "+op.Key()+": releasing a key can wait on another goroutine", "Unlock never blocks", nil)
-				continue
+				c.R.Fail(rule, Fn(fn)+":foreign-call", c.Pos(ci), "Unlock(key) calls "+CalleeName(ci), "only a map load and the mutex release", nil)
 			}
-			if f != nil && !prog.InModule(f) && strings.Contains(f.String(), "zerolog") {
-				continue
-			}
-			bad = true
-			c.R.Fail(rule, Fn(fn)+":foreign-call", c.Pos(ci), "Unlock(key) calls "+CalleeName(ci), "only a map load and the mutex release", nil)
 		}
 		if !bad {
-			c.R.OK(rule, Fn(fn), c.P.FuncPos(fn), "Unlock(key) performs a map load and a mutex release only")
+			c.R.OK(rule, Fn(unlock), c.P.FuncPos(unlock), "Unlock(key) performs a map load and a mutex release only")
 		}
 	}
 }
 
-// keyMutexSources checks that mutex value v (receiver of the final Lock) is typeassert(phi(Load(key)#0 ..., stored new mutex)).
-func (c *Ctx) keyMutexSources(fn *ssa.Function, v ssa.Value, keyP *ssa.Parameter) (bool, string) {
-	ta, ok := v.(*ssa.TypeAssert)
-	if !ok {
-		return false, "receiver is not a type assertion of a map value"
+// mutexSrc decides where the mutex acquired by Lock(key) comes from, following same-receiver helpers.
+type mutexSrc struct {
+	c        *Ctx
+	unit     map[*ssa.Function]bool
+	creation map[string]bool // mutex fields used in the unit
+	why      string
+}
+
+func isKeyVal(a ssa.Value, kp ssa.Value) bool {
+	if a == kp {
+		return true
 	}
-	var leaves []ssa.Value
-	seen := map[ssa.Value]bool{}
-	var walk func(x ssa.Value)
-	walk = func(x ssa.Value) {
-		if seen[x] {
-			return
+	mi, ok := a.(*ssa.MakeInterface)
+	return ok && mi.X == kp
+}
+
+// helperKey maps the key value kp (in the caller) to the parameter of callee that receives it.
+func helperKey(call *ssa.Call, kp ssa.Value) ssa.Value {
+	callee := call.Call.StaticCallee()
+	for i, a := range call.Call.Args {
+		if isKeyVal(a, kp) && i < len(callee.Params) {
+			return callee.Params[i]
 		}
-		seen[x] = true
-		if phi, ok := x.(*ssa.Phi); ok {
-			for _, e := range phi.Edges {
-				walk(e)
-			}
-			return
+	}
+	return nil
+}
+
+// guardedByOk: `at` is reachable only through the edge on which result #1 of call is true.
+func guardedByOk(call *ssa.Call, at ssa.Instruction) bool {
+	var okv ssa.Value
+	for _, ref := range *call.Referrers() {
+		if ex, ok := ref.(*ssa.Extract); ok && ex.Index == 1 {
+			okv = ex
 		}
-		leaves = append(leaves, x)
 	}
-	walk(ta.X)
-	isKeyArg := func(a ssa.Value) bool {
-		mi, ok := a.(*ssa.MakeInterface)
-		return ok && mi.X == ssa.Value(keyP)
+	if okv == nil || at == nil {
+		return false
 	}
-	for _, lf := range leaves {
-		switch x := lf.(type) {
-		case *ssa.Extract:
-			call, ok := x.Tuple.(*ssa.Call)
-			if !ok || x.Index != 0 {
-				return false, "unexpected source " + an.Term(lf)
+	x, _ := an.Cut(an.CutQuery{From: an.Entry(at.Parent()), Target: func(i ssa.Instruction) bool { return i == at },
+		AcceptEdge: func(b *ssa.BasicBlock, i int, a *an.Atom) bool { return a != nil && a.Op == "true" && a.LV == okv }})
+	return x == nil
+}
+
+func (m *mutexSrc) src(fn *ssa.Function, v ssa.Value, kp ssa.Value, at ssa.Instruction, depth int) bool {
+	if depth > 6 {
+		m.why = "source too deep"
+		return false
+	}
+	switch x := v.(type) {
+	case *ssa.TypeAssert:
+		return m.src(fn, x.X, kp, at, depth)
+	case *ssa.ChangeType:
+		return m.src(fn, x.X, kp, at, depth)
+	case *ssa.MakeInterface:
+		return m.src(fn, x.X, kp, at, depth)
+	case *ssa.Phi:
+		for i, e := range x.Edges {
+			pred := x.Block().Preds[i]
+			if !m.src(fn, e, kp, pred.Instrs[len(pred.Instrs)-1], depth+1) {
+				return false
 			}
-			op, ok := isSyncMapOp(call)
-			if !ok || (op != "Load" && op != "LoadOrStore") || !isKeyArg(call.Call.Args[1]) {
-				return false, "loaded with a different key: " + an.Term(lf)
+		}
+		return true
+	case *ssa.Extract:
+		call, ok := x.Tuple.(*ssa.Call)
+		if !ok {
+			m.why = "unexpected source " + an.Term(v)
+			return false
+		}
+		if op, ok := isSyncMapOp(call); ok {
+			if x.Index != 0 || (op != "Load" && op != "LoadOrStore") || !isKeyVal(call.Call.Args[1], kp) {
+				m.why = "loaded with a different key: " + an.Term(v)
+				return false
 			}
-			// a Load result used as the mutex must be under its ok edge... for LoadOrStore always valid
-			if op == "Load" {
-				var okv ssa.Value
-				for _, ref := range *call.Referrers() {
-					if ex, ok := ref.(*ssa.Extract); ok && ex.Index == 1 {
-						okv = ex
-					}
+			if op == "LoadOrStore" {
+				mi, ok := call.Call.Args[2].(*ssa.MakeInterface)
+				if !ok || an.TypeStr(mi.X.Type()) != "*sync.Mutex" {
+					m.why = "LoadOrStore of a non-mutex"
+					return false
 				}
-				_ = okv
 			}
-		case *ssa.MakeInterface:
-			alloc, ok := x.X.(*ssa.Alloc)
-			if !ok || an.TypeStr(alloc.Type()) != "*sync.Mutex" {
-				return false, "a value other than a new *sync.Mutex is used"
+			return true
+		}
+		return m.helper(call, x.Index, kp, at, depth)
+	case *ssa.Call:
+		return m.helper(x, 0, kp, at, depth)
+	case *ssa.Alloc:
+		if an.TypeStr(x.Type()) != "*sync.Mutex" {
+			m.why = "a value other than a new *sync.Mutex is used"
+			return false
+		}
+		return m.freshStored(fn, x, kp)
+	case *ssa.Const:
+		m.why = "a nil mutex can be acquired"
+		return false
+	}
+	m.why = "unexpected source " + an.Term(v)
+	return false
+}
+
+func (m *mutexSrc) helper(call *ssa.Call, idx int, kp ssa.Value, at ssa.Instruction, depth int) bool {
+	h := call.Call.StaticCallee()
+	if h == nil || !m.unit[h] {
+		m.why = "unexpected source " + an.Term(call)
+		return false
+	}
+	hk := helperKey(call, kp)
+	if hk == nil {
+		m.why = "helper " + Fn(h) + " is not given this key"
+		return false
+	}
+	onlyOk := h.Signature.Results().Len() == 2 && guardedByOk(call, at)
+	n := 0
+	for _, ret := range an.Returns(h) {
+		if idx >= len(ret.Results) {
+			continue
+		}
+		if onlyOk {
+			if k, ok := an.Result(ret, 1).(*ssa.Const); ok && an.Term(k) == "false" {
+				continue // this return is excluded by the caller's [ok] test
 			}
-			// must be stored in the map under key, below a not-present edge of Load(key)
-			stored := false
-			for _, ref := range *x.Referrers() {
-				call, ok := ref.(*ssa.Call)
-				if !ok {
+		}
+		n++
+		if !m.src(h, an.Result(ret, idx), hk, ret, depth+1) {
+			return false
+		}
+	}
+	if n == 0 {
+		m.why = "helper " + Fn(h) + " has no usable return"
+		return false
+	}
+	return true
+}
+
+// notPresentEdge: the atom states that the map holds no entry for kp, as observed by instruction `obs` (a Load of the key,
+// or a call of a unit helper whose false result #1 is returned only below such a Load's not-present edge).
+func (m *mutexSrc) notPresentEdge(a *an.Atom, kp ssa.Value, depth int) (obs ssa.Instruction, ok bool) {
+	if a == nil || a.Op != "false" || depth > 3 {
+		return nil, false
+	}
+	ex, isEx := a.LV.(*ssa.Extract)
+	if !isEx || ex.Index != 1 {
+		return nil, false
+	}
+	lc, isCall := ex.Tuple.(*ssa.Call)
+	if !isCall {
+		return nil, false
+	}
+	if op, isMap := isSyncMapOp(lc); isMap {
+		if op == "Load" && isKeyVal(lc.Call.Args[1], kp) {
+			return lc, true
+		}
+		return nil, false
+	}
+	h := lc.Call.StaticCallee()
+	if h == nil || !m.unit[h] {
+		return nil, false
+	}
+	hk := helperKey(lc, kp)
+	if hk == nil {
+		return nil, false
+	}
+	for _, ret := range an.Returns(h) {
+		if len(ret.Results) < 2 {
+			return nil, false
+		}
+		r1 := an.Result(ret, 1)
+		if k, isK := r1.(*ssa.Const); isK {
+			if an.Term(k) == "true" {
+				continue
+			}
+			target := ssa.Instruction(ret)
+			if x, _ := an.Cut(an.CutQuery{From: an.Entry(h), Target: func(i ssa.Instruction) bool { return i == target },
+				AcceptEdge: func(b *ssa.BasicBlock, i int, e *an.Atom) bool { _, ok := m.notPresentEdge(e, hk, depth+1); return ok }}); x != nil {
+				return nil, false
+			}
+			continue
+		}
+		// returned as is: the presence flag of a Load(key)
+		if e2, isE := r1.(*ssa.Extract); isE && e2.Index == 1 {
+			if c2, isC := e2.Tuple.(*ssa.Call); isC {
+				if op, isMap := isSyncMapOp(c2); isMap && op == "Load" && isKeyVal(c2.Call.Args[1], hk) {
 					continue
 				}
-				if op, ok := isSyncMapOp(call); ok && op == "Store" && isKeyArg(call.Call.Args[1]) && call.Call.Args[2] == ssa.Value(x) {
-					// guard: below [!ok] of a Load(key)
-					target := ssa.Instruction(call)
-					if y, _ := an.Cut(an.CutQuery{From: an.Entry(fn), Target: func(i ssa.Instruction) bool { return i == target },
-						AcceptEdge: func(b *ssa.BasicBlock, i int, a *an.Atom) bool {
-							if a == nil || a.Op != "false" {
-								return false
-							}
-							ex, ok := a.LV.(*ssa.Extract)
-							if !ok || ex.Index != 1 {
-								return false
-							}
-							lc, ok := ex.Tuple.(*ssa.Call)
-							if !ok {
-								return false
-							}
-							op, ok := isSyncMapOp(lc)
-							return ok && op == "Load" && isKeyArg(lc.Call.Args[1])
-						}}); y != nil {
-						return false, "a new mutex can replace an existing one (two holders of one key)"
-					}
-					stored = true
+			}
+		}
+		return nil, false
+	}
+	return lc, true
+}
+
+// freshStored: the new mutex is stored under the key, only below a not-present observation made while a creation mutex is
+// held, and still held at the store (the re-check of the double-checked creation).
+func (m *mutexSrc) freshStored(fn *ssa.Function, alloc *ssa.Alloc, kp ssa.Value) bool {
+	var vals []ssa.Value
+	vals = append(vals, alloc)
+	for _, ref := range *alloc.Referrers() {
+		if mi, ok := ref.(*ssa.MakeInterface); ok {
+			vals = append(vals, mi)
+		}
+	}
+	for _, v := range vals {
+		if v.Referrers() == nil {
+			continue
+		}
+		for _, ref := range *v.Referrers() {
+			call, ok := ref.(*ssa.Call)
+			if !ok {
+				continue
+			}
+			op, ok := isSyncMapOp(call)
+			if !ok || op != "Store" || !isKeyVal(call.Call.Args[1], kp) || call.Call.Args[2] != v {
+				continue
+			}
+			for k := range m.creation {
+				h := Held(fn, k)
+				if h.Before[call]&2 == 0 || h.Before[call]&1 != 0 {
+					continue
+				}
+				target := ssa.Instruction(call)
+				if y, _ := an.Cut(an.CutQuery{From: an.Entry(fn), Target: func(i ssa.Instruction) bool { return i == target },
+					AcceptEdge: func(b *ssa.BasicBlock, i int, a *an.Atom) bool {
+						obs, ok := m.notPresentEdge(a, kp, 0)
+						return ok && h.Before[obs]&2 != 0 && h.Before[obs]&1 == 0
+					}}); y == nil {
+					return true
 				}
 			}
-			if !stored {
-				return false, "the new mutex is not stored in the map"
+			m.why = "a new mutex can replace an existing one (no re-check under the creation mutex: two holders of one key)"
+			return false
+		}
+	}
+	m.why = "the new mutex is not stored in the map"
+	return false
+}
+
+// mapWriters: every modification of the key-mutex map is a Store of a *sync.Mutex inside Lock(key)'s unit.
+func (m *mutexSrc) mapWriters(lock *ssa.Function) string {
+	for fn := range m.unit {
+		for _, ci := range Calls(fn, func(ci ssa.CallInstruction) bool {
+			op, ok := isSyncMapOp(ci)
+			return ok && (op == "Store" || op == "Delete" || op == "Clear" || op == "Swap" || op == "CompareAndSwap" || op == "CompareAndDelete" || op == "LoadAndDelete")
+		}) {
+			op, _ := isSyncMapOp(ci)
+			if op != "Store" {
+				return "the key-mutex map is modified by " + op
 			}
-		default:
-			return false, "unexpected source " + an.Term(lf)
+			mi, ok := ci.Common().Args[2].(*ssa.MakeInterface)
+			if !ok || an.TypeStr(mi.X.Type()) != "*sync.Mutex" {
+				return "a non-mutex value is stored in the map"
+			}
 		}
 	}
-	// all Stores into the map store *sync.Mutex values under the key parameter
-	for _, ci := range Calls(fn, func(ci ssa.CallInstruction) bool {
-		op, ok := isSyncMapOp(ci)
-		return ok && (op == "Store" || op == "Delete" || op == "Clear" || op == "Swap" || op == "CompareAndSwap" || op == "CompareAndDelete" || op == "LoadAndDelete")
-	}) {
-		op, _ := isSyncMapOp(ci)
-		if op != "Store" {
-			return false, "the key-mutex map is modified by " + op
-		}
-		mi, ok := ci.Common().Args[2].(*ssa.MakeInterface)
-		if !ok || an.TypeStr(mi.X.Type()) != "*sync.Mutex" {
-			return false, "a non-mutex value is stored in the map"
-		}
-	}
-	// nobody else writes the map field
-	T := namedOf(fn.Signature.Recv().Type())
-	for _, other := range c.P.ModuleFuncs() {
-		if other == fn || prog.PkgPathOf(other) != prog.PkgPathOf(fn) {
+	for _, other := range m.c.P.ModuleFuncs() {
+		if m.unit[other] || prog.PkgPathOf(other) != prog.PkgPathOf(lock) {
 			continue
 		}
 		for _, ci := range Calls(other, func(ci ssa.CallInstruction) bool {
 			op, ok := isSyncMapOp(ci)
 			return ok && op != "Load" && op != "Range"
 		}) {
-			_ = T
-			return false, "the key-mutex map is also modified in " + Fn(other) + " at " + c.Pos(ci)
+			return "the key-mutex map is also modified in " + Fn(other) + " at " + m.c.Pos(ci)
 		}
 	}
-	return true, ""
+	return ""
 }
 
 // NoNestedAcquisition: C15.O3 - nothing that runs while key locks are held (everything reachable from the dispatch)
